@@ -183,15 +183,27 @@ func Decode(rec *Recorder) *Decoded {
 		d.Kind = "redirect"
 		d.Location = loc
 		d.Target = loc
+		// RFC 3986: the query starts at the first '?' and ends at '#'. The delivery
+		// target is what precedes the first SAML parameter (the consumer URL may have
+		// a query of its own, to which the parameters are appended).
 		if i := strings.IndexByte(loc, '?'); i >= 0 {
-			d.Target = loc[:i]
-			d.RawQuery = loc[i+1:]
-		}
-		// The IdP appends "?SAMLResponse=..." to the consumer URL; when the consumer
-		// URL itself has a query the appended part starts at the LAST "?SAMLResponse=" / "&SAMLResponse=".
-		if j := strings.LastIndex(loc, "SAMLResponse="); j > 0 && (loc[j-1] == '?' || loc[j-1] == '&') {
-			d.Target = loc[:j-1]
-			d.RawQuery = loc[j:]
+			q := loc[i+1:]
+			if h := strings.IndexByte(q, '#'); h >= 0 {
+				q = q[:h]
+			}
+			d.RawQuery = q
+			pos := i + 1
+			for _, kv := range strings.Split(q, "&") {
+				k := kv
+				if e := strings.IndexByte(kv, '='); e >= 0 {
+					k = kv[:e]
+				}
+				if k == "SAMLResponse" || k == "RelayState" || k == "SigAlg" || k == "Signature" || k == "SAMLRequest" {
+					d.Target = loc[:pos-1]
+					break
+				}
+				pos += len(kv) + 1
+			}
 		}
 		for _, kv := range strings.Split(d.RawQuery, "&") {
 			if kv == "" {
